@@ -57,7 +57,7 @@ def events(ctx):
             yield record("tc.rt", {"p": p, "sfx": [], "via": "ctor"})
     for _ in range(ctx.q(20000, 1000000)):
         sfx = [] if rng.random() < 0.6 else [rng.randrange(256) for _ in range(rng.randrange(1, 20))]
-        yield record("tc.rt", {"p": rand_params(rng), "sfx": sfx, "via": rng.choice(["ctor", "ctor", "sph", "composite", "setter"])})
+        yield record("tc.rt", {"p": rand_params(rng), "sfx": sfx, "via": rng.choice(["ctor", "ctor", "sph", "composite", "setter", "bytearray"])})
     # raw strings: random, valid packets with mutated octets, random declared lengths with matching CRC
     for _ in range(ctx.q(20000, 600000)):
         kind = rng.randrange(4)
